@@ -103,6 +103,22 @@ def one_case(args):
     walk = R.walk(data)
     if not walk or sum(64 + p.payload_len for p in walk) != len(data):
         return out
+    ffwords = 0
+    if kind.startswith("frame_its") and rng.random() < 0.4:
+        # corrupted words of 0xFF in the MIDDLE of a payload (never its first or last slot): they are words, the words after them keep their offsets
+        b = bytearray(data)
+        for p in walk:
+            slot = 16 if p.f["data_format"] == 0 else 10
+            ns = p.payload_len // slot
+            if ns >= 4 and rng.random() < 0.5:
+                for _ in range(rng.choice([1, 1, 2])):
+                    k = rng.randrange(1, ns - 2)
+                    o = p.payload_off + k * slot
+                    wdt = slot if rng.random() < 0.5 else 10
+                    b[o:o + wdt] = b"\xff" * wdt
+                    ffwords += 1
+        data = bytes(b)
+        desc0 += ", %d mid-payload 0xFF words" % ffwords
     mode = rng.choice(["all", "sanity", "all_its", "all_its", "sanity_its", "all_its_stave", "all_its_stave"])
     flt = None
     if rng.random() < 0.35:
